@@ -484,7 +484,7 @@ def cases(tier, seed):
     q = tier == "quick"
     out = []
     k = 0
-    for rep in range(3 if q else 15):
+    for rep in range(2 if q else 15):
         for load in (1, 2, 3, 4, 7, 12):
             out.append({"cls": "i2c", "seed": "%d/C19/i2c/%d" % (seed, k), "kind": "legal", "load": load,
                         "n": max(2, int((40 if q else 80) / (load + 1)))})
